@@ -8,13 +8,19 @@ EXPLANATION = ("G1 on every path of the frame decoder, `Ok(None)` (need more byt
                "component of that very parser result, and the parser is applied to the whole buffer; G3 every nom primitive reachable "
                "from the TLV parser (MIR call graph) is the `streaming` variant, so a short buffer yields Incomplete rather than an error "
                "or a truncated value, and the empty buffer is mapped to Incomplete; G4 the codec keeps no state across calls in this "
-               "configuration and Decoder::decode is the frame decoder applied to the caller's buffer. Not decided: tokio-util's Framed "
-               "re-invoking decode correctly; frame sizes beyond the read buffer as a runtime quantity.")
+               "configuration and Decoder::decode is the frame decoder applied to the caller's buffer; G7 (gssapi configuration, where the "
+               "codec carries the SASL token layer) every error path of Decoder::decode is the frame decoder's own answer or the failure "
+               "of the unwrap primitive - a shortfall of buffered bytes is never an error - and a literal Ok(None) path has not touched "
+               "the buffer. Not decided: tokio-util's Framed re-invoking decode correctly; frame sizes beyond the read buffer as a runtime "
+               "quantity; what becomes of plaintext left over after unwrapping a SASL token when further tokens are already buffered, and of "
+               "an LDAP message that straddles two tokens (read off the code as lossy, but not demonstrable here without a Kerberos peer, "
+               "so not claimed either way).")
 TRUSTED = ['tokio_util::codec::Framed', 'nom streaming parsers report Incomplete on short input', 'bytes::BytesMut::advance']
 UNDECIDED = ['Framed\'s read loop (trusted)', 'sizes beyond the read buffer (runtime quantity)']
 ASSUMPTIONS = []
 SHARED = [('C07', ('B2.reader',), 'G5.length-reader'), ('C07', ('B7.', 'B4.remainder'), 'G6.tlv-parser')]      # the frame boundary is where the length reader says it is, however the bytes arrive
 CONFIGS = ['default', 'nodefault', 'rustls', 'gssapi']
+QUICK_CONFIGS = ['default', 'gssapi']      # the SASL token layer (G7) exists only with the gssapi feature
 
 MUTATORS = ('advance', 'split_to', 'split_off', 'split', 'truncate', 'clear', 'resize', 'extend', 'extend_from_slice', 'put', 'put_slice', 'unsplit', 'set_len', 'freeze', 'copy_to_bytes', 'get_u8')
 
@@ -125,4 +131,27 @@ def run(ctx):
         # gssapi: the SASL layer keeps state; the frame decoder itself (G1/G2 above) is what is decided, on whichever buffer it is given
         calls = [n for n, c in walk(D.root) if n['k'] == 'Call' and callee_of(n) == dp]
         ctx.add('G4.decode-uses-frame-decoder', D.path, loc(D.root), len(calls) >= 1, 'Decoder::decode does not go through the frame decoder')
-        ctx.note('configuration with SASL state (fields %s): only the inner frame decoder is decided' % fields)
+        ctx.note('configuration with SASL state (fields %s): the inner frame decoder is decided, and of the SASL token layer that no shortfall of buffered bytes is answered with an error and that waiting consumes nothing' % fields)
+        # G7 the SASL token layer adds no rejection of its own and waits without consuming: every Err path of decode is the frame
+        # decoder's own answer or the failure of the unwrap primitive; in particular a path that found fewer bytes buffered than it
+        # needs (a length comparison that holds) answers Ok(None).  A literal Ok(None) path has not touched the buffer.
+        buf = ('param', 'buf')
+        n_err = n_wait = 0
+        for o in absx.Interp(f, D, combinators=True).run():
+            if o.kind not in ('val', 'ret'):
+                continue
+            v = o.val
+            from_decoder = v[0] == 'call' and v[1] == dp
+            is_err = (v[0] == 'ctor' and v[1] == 'Err') or v[0] == 'tryerr'
+            muts = [e for e in o.st.ev if e[0] == 'call' and e[2] and e[2][0] == buf and e[1].rsplit('::', 1)[-1] in ('advance', 'split_to', 'split_off', 'clear', 'truncate', 'split', 'extend', 'extend_from_slice', 'reserve', 'unsplit')]
+            if is_err and not from_decoder:
+                n_err += 1
+                unwrap_failed = absx.leaves(v, lambda x: x[0] == 'call' and x[1].endswith('::unwrap_iov')) != []
+                short = [absx.fmt(a)[:60] for a, t in o.st.pc if t and a[0] == 'bin' and a[1] in ('Lt', 'Le', 'Gt', 'Ge') and absx.leaves(a, lambda x: x[0] == 'call' and x[1].endswith('::len') and x[2] and x[2][0] == buf) != []]
+                ctx.add('G7.sasl-layer-no-extra-rejection', 'Err|' + (short[0] if short else absx.fmt(v)[:50]), loc(D.root), unwrap_failed and not short,
+                        'Decoder::decode answers an error of its own (%s) on a path that %s: with the SASL layer active a read boundary there ends the connection although the bytes that complete the token are still to come' % (absx.fmt(v)[:70], ('found too few bytes buffered (%s)' % short[0]) if short else 'is neither the frame decoder\'s answer nor a failure of the unwrap primitive'))
+            if v == ('ctor', 'Ok', (('ctor', 'None', ()),)):
+                n_wait += 1
+                ctx.add('G7.waiting-consumes-nothing', 'Ok(None)', loc(D.root), not muts, 'the SASL layer waits for more bytes after touching the buffer: %s' % [m[1].rsplit('::', 1)[-1] for m in muts])
+        ctx.floor('G7', 'error paths of the SASL layer', n_err, 1)
+        ctx.floor('G7', 'need-more paths of the SASL layer', n_wait, 1)
